@@ -21,6 +21,8 @@ from . import core
 from .core import Undecided, log
 
 CASE_TIMEOUT = 10.0
+import threading
+_ALONE = threading.Lock()
 
 
 def _tree_digest():
@@ -214,9 +216,15 @@ def run_property(pid, tier, seed):
             try:
                 r = invoke(binp, c)
                 msg = c["check"](r)
+                if msg and r.timed_out:
+                    # a time-out under load proves nothing: run the case again alone, with eight times the limit
+                    with _ALONE:
+                        c2 = dict(c, timeout=max(60.0, 8 * c.get("timeout", CASE_TIMEOUT)))
+                        r = invoke(binp, c2)
+                    msg = c["check"](r)
                 if msg:
                     # a failing input must fail twice (no flaky alarms)
-                    r2 = invoke(binp, c)
+                    r2 = invoke(binp, c if not r.timed_out else dict(c, timeout=max(60.0, 8 * c.get("timeout", CASE_TIMEOUT))))
                     msg2 = c["check"](r2)
                     if msg2:
                         return (c, r2, msg2)
